@@ -391,12 +391,104 @@ func TKDom(n int) *Dom[TK] {
 	return d
 }
 
+// SID is a DEFINED string type without methods: encoding/json writes and reads
+// it exactly like string (as element and as object key), `any(x).(string)`
+// does not hold for it. Code that special-cases the predeclared type instead
+// of the kind treats it differently.
+type SID string
+
+var sidCmps = []NamedCmp[SID]{
+	{"natural", func(a, b SID) int { return strings.Compare(string(a), string(b)) }},
+	{"reversed", func(a, b SID) int { return strings.Compare(string(b), string(a)) }},
+	{"caseless", func(a, b SID) int { return strings.Compare(strings.ToLower(string(a)), strings.ToLower(string(b))) }},
+	{"natural-unnormalised", func(a, b SID) int { return scale(strings.Compare(string(a), string(b)), uint64(len(a)*31+len(b))) }},
+}
+
+func SIDDom(n int) *Dom[SID] {
+	d := &Dom[SID]{Name: "defined-string", Cmps: sidCmps, Fmt: func(v SID) string { return fmt.Sprintf("%q", string(v)) }}
+	if n > len(strAlphabet) {
+		n = len(strAlphabet)
+	}
+	for _, s := range strAlphabet[:n] {
+		d.Alpha = append(d.Alpha, SID(s))
+	}
+	d.Probe = []SID{"\x00", "a0", "aa", "zzz", "~", "Ab"}
+	d.Wide = func(r *core.R) SID { return SID(StrDom(4).Wide(r)) }
+	return d
+}
+
+// AnyDom: elements / map values of the interface type `any`, holding exactly
+// the dynamic types encoding/json produces when it decodes into an interface
+// (float64, string, bool, nil), so that a round trip must give back equal
+// values of the same dynamic type. A loader that decodes numbers differently
+// (json.Number, int) changes values that print the same.
+func anyRank(v any) (int, float64, string) {
+	switch x := v.(type) {
+	case nil:
+		return 0, 0, ""
+	case bool:
+		if x {
+			return 1, 1, ""
+		}
+		return 1, 0, ""
+	case float64:
+		return 2, x, ""
+	case string:
+		return 3, 0, x
+	}
+	return 4, 0, fmt.Sprintf("%T:%v", v, v)
+}
+
+func anyCmp(a, b any) int {
+	ra, fa, sa := anyRank(a)
+	rb, fb, sb := anyRank(b)
+	if c := cmp.Compare(ra, rb); c != 0 {
+		return c
+	}
+	if c := cmp.Compare(fa, fb); c != 0 {
+		return c
+	}
+	return strings.Compare(sa, sb)
+}
+
+var anyCmps = []NamedCmp[any]{
+	{"natural", anyCmp},
+	{"reversed", func(a, b any) int { return anyCmp(b, a) }},
+	{"by-kind", func(a, b any) int { ra, _, _ := anyRank(a); rb, _, _ := anyRank(b); return cmp.Compare(ra, rb) }},
+	{"natural-unnormalised", func(a, b any) int { return scale(anyCmp(a, b), 77) }},
+}
+
+func AnyDom(n int) *Dom[any] {
+	d := &Dom[any]{Name: "any", Cmps: anyCmps, Fmt: func(v any) string { return fmt.Sprintf("%T(%v)", v, v) }}
+	all := []any{3.25, "3.25", 7.0, nil, true, "", -0.5, false, "seven", 1e21, 12.0, "null", 0.0, "true", 6.0, 1.0}
+	if n > len(all) {
+		n = len(all)
+	}
+	d.Alpha = append(d.Alpha, all[:n]...)
+	d.Probe = []any{2.5, "absent", -7.0, "7"}
+	d.Wide = func(r *core.R) any { return float64(r.Intn(1<<20)) / 4 }
+	return d
+}
+
 // SK is a struct element/key type (comparable, no natural order): generic
 // code must not depend on the element being a built-in scalar.
 type SK struct {
 	A int
 	B string
 }
+
+// SK carries methods that generic code might be tempted to discover by a type
+// assertion on any(element) and to prefer over what it was given: an Equal
+// coarser than == (the alphabet holds pairs that are Equal but different),
+// Compare/Less that contradict every comparator in use, an IsZero that is true
+// for live values, a constant Hash, a Len. A container identifies elements by
+// == or by its comparator and by nothing else.
+func (a SK) Equal(o SK) bool  { return a.A == o.A }
+func (a SK) Compare(o SK) int { return strings.Compare(o.B, a.B) }
+func (a SK) Less(o SK) bool   { return a.B > o.B }
+func (a SK) IsZero() bool     { return a.B == "x" }
+func (a SK) Hash() uint64     { return 7 }
+func (a SK) Len() int         { return 0 }
 
 func skCmp(a, b SK) int {
 	if c := cmp.Compare(a.A, b.A); c != 0 {
